@@ -1437,6 +1437,14 @@ Proof.
   set (ordinal := latest - i * stride).
   destruct (ordinal =? 0) eqn:E0; [reflexivity|]. apply N.eqb_neq in E0.
   rewrite Hrp.
+  destruct ld.
+  { (* the message list of the replay is in hand: the index is not consulted *)
+    destruct (nth_error (messages l) (N.to_nat (ordinal - 1))) as [m|] eqn:En.
+    + rewrite (cut_point_at_mk l _ m En).
+      pose proof (ckpt_lookup_faithful me mb comp full l true (fseq m) Hv Hp Hff Hcf) as Hbest.
+      destruct (ckpt_lookup me mb comp full l true (fseq m)) as [best rp']. cbn [fst] in Hbest. subst best.
+      f_equal. apply IH.
+    + unfold cut_point_at. rewrite En. apply IH. }
   destruct (match ord_by_ordinal ord known ordinal with OSome sq => frame_at l sq | _ => None end) as [m'|] eqn:Eb.
   - assert (Hk : 0 < ordinal) by lia.
     pose proof (by_ordinal_faithful l ord known ordinal m' Hv Hof Hk Eb) as Hm.
@@ -1466,6 +1474,54 @@ Proof.
   - rewrite (ord_count_faithful l ord n0 Hof Ec). f_equal.
     destruct (nlen (messages l) / stride * stride =? 0); [reflexivity|].
     apply cut_points_ord_loop; assumption.
+Qed.
+
+(* C04-F3 (fixed in /repo): an index whose count has been rejected (last record is not the last message) was still asked
+   for every ordinal: messages 1,3,5,7, index [1;5] (record of message 3 lost, record of message 7 missing): the count
+   falls back to the replay (4), ordinal 2 resolved to message 5 through the index; the repaired route takes message 3 *)
+Definition wlog7 : log :=
+  [wf0; {| fseq := 1; flen := 8; fb := BMessage |}; {| fseq := 2; flen := 8; fb := BOther |};
+   {| fseq := 3; flen := 8; fb := BMessage |}; {| fseq := 4; flen := 8; fb := BOther |}; {| fseq := 5; flen := 8; fb := BMessage |};
+   {| fseq := 6; flen := 8; fb := BOther |}; {| fseq := 7; flen := 8; fb := BMessage |}].
+Lemma rejected_index_unfixed :
+  valid_log wlog7 = true
+  /\ ord_count (OFile [1; 5] 0) (mr_last_of wlog7) = OErr
+  /\ map cp_to_seq (snd (cut_points_ord_unfixed 100 1000 None (Some (project_full wlog7)) wlog7 (OFile [1; 5] 0) (fun _ => true) 2 4)) = [7; 5]
+  /\ map cp_to_seq (snd (cut_points_ord 100 1000 None (Some (project_full wlog7)) wlog7 (OFile [1; 5] 0) (fun _ => true) 2 4)) = [7; 3]
+  /\ map cp_to_seq (snd (cut_points_truth wlog7 2 4)) = [7; 3].
+Proof. repeat split; vm_compute; reflexivity. Qed.
+
+(* once the count of the index has been rejected nothing of the index is used: the cut points are the truth answer for ANY
+   content of the ordinal index that fails the count check (no OrdFaithful hypothesis) *)
+Lemma cut_points_ord_loop_loaded me mb comp full l ord known stride latest :
+  valid_log l = true -> log_lens_pos l = true -> FullFaithful l full -> CompFaithful l comp full ->
+  forall n rp i,
+  cut_points_ord_from me mb comp full l ord known stride latest i rp true n = cut_points_from l stride latest i n.
+Proof.
+  intros Hv Hp Hff Hcf. pose proof (replay_faithful l full Hv Hff) as Hrp.
+  induction n as [|n IH]; intros rp i; [reflexivity|].
+  cbn [cut_points_ord_from cut_points_from].
+  set (ordinal := latest - i * stride).
+  destruct (ordinal =? 0) eqn:E0; [reflexivity|].
+  rewrite Hrp.
+  destruct (nth_error (messages l) (N.to_nat (ordinal - 1))) as [m|] eqn:En.
+  + rewrite (cut_point_at_mk l _ m En).
+    pose proof (ckpt_lookup_faithful me mb comp full l true (fseq m) Hv Hp Hff Hcf) as Hbest.
+    destruct (ckpt_lookup me mb comp full l true (fseq m)) as [best rp']. cbn [fst] in Hbest. subst best.
+    f_equal. apply IH.
+  + unfold cut_point_at. rewrite En. apply IH.
+Qed.
+
+Theorem cut_points_rejected_index_eq_truth me mb comp full l ord known stride limit :
+  valid_log l = true -> log_lens_pos l = true -> FullFaithful l full -> CompFaithful l comp full ->
+  (forall n, ord_count ord (mr_last_of l) <> OSome n) ->
+  cut_points_ord me mb comp full l ord known stride limit = cut_points_truth l stride limit.
+Proof.
+  intros Hv Hp Hff Hcf Hrej. unfold cut_points_ord, cut_points_truth.
+  pose proof (replay_faithful l full Hv Hff) as Hrp.
+  destruct (ord_count ord (mr_last_of l)) as [| |n0] eqn:Ec; [| |exfalso; exact (Hrej n0 eq_refl)];
+    rewrite Hrp; f_equal; (destruct (nlen (messages l) / stride * stride =? 0); [reflexivity|]);
+    apply cut_points_ord_loop_loaded; assumption.
 Qed.
 
 (* K3 changes cut points: index [1;5] of a thread with messages 1,3,5 (last record right, middle one lost) *)
